@@ -494,8 +494,8 @@ CONTRACTS[".map"] = lambda it, recv, a: VOpaque("map_ok", [recv, "TorsionFreeWit
 
 
 # ------------------------------------------------------------------ append_fixed_base_signed_digits (trace-only: every composer operation)
-def H(name, k):
-    return VOpaque(f"havoc:{name}#{k}")
+def H(name, k=None):
+    return VOpaque(f"havoc:{name}")
 
 
 def idx(v, i):
